@@ -489,10 +489,10 @@ func init() {
 		true, Budget{Shards: 1}, Budget{Shards: 1}, enumCoeffTable, checkCoeffU64)
 	RegisterRapid("C16_coeff_random",
 		"rapid: (n,k) in uint64 x uint64: small k with n of every bit length, neighbourhoods (+-40) of every overflow threshold, small rows, and unconstrained pairs; same verdict as C16_coeff_table. Non-trivial: n > 32 and k <= n.",
-		Budget{Checks: 20000, Shards: 1}, Budget{Checks: 200000, Shards: 4}, genCoeffCase, checkCoeffU64)
+		Budget{Checks: 20000, Shards: 1}, Budget{Checks: 1000000, Shards: 8}, genCoeffCase, checkCoeffU64)
 	RegisterRapid("C16_coeff_int",
 		"rapid: Coeff(n,k) for ints: small n,k including negatives (documented panic for n<0, 0 for k<0), both sides of the MaxInt threshold for k <= 34, large n with tiny k. Non-trivial: n > 32 and 0 <= k <= n.",
-		Budget{Checks: 10000, Shards: 1}, Budget{Checks: 100000, Shards: 2}, genCoeffIntCase, checkCoeffInt)
+		Budget{Checks: 10000, Shards: 1}, Budget{Checks: 500000, Shards: 4}, genCoeffIntCase, checkCoeffInt)
 	RegisterEnum("C16_coeffs_pascal",
 		"enumeration: Coeffs(n) for every n in 0..66 (66 is the last row whose middle entry fits an int64) compared entry by entry with math/big binomials. Non-trivial: n >= 2.",
 		true, Budget{Shards: 1}, Budget{Shards: 1},
@@ -505,10 +505,10 @@ func init() {
 		}, checkCoeffs)
 	subUnrank = RegisterRapid("C16_unrank",
 		"rapid: (rank,k): k in 0..12; k>=3: rank of every bit length up to MaxInt (10% within 1000 of MaxInt); k in {1,2}: rank bounded so the answer's largest element is <= 2e5 (quick) / 3e6 (thorough) because Unrank walks upward by design. Oracle: big-int greedy colex unranking; Unrank must return within 20s + 1us per expected step (else reported as non-termination), equal the oracle, and Rank must invert it. Non-trivial: rank >= 2^32.",
-		Budget{Checks: 3000, Shards: 1}, Budget{Checks: 30000, Shards: 8}, genUnrankCase, checkUnrank)
+		Budget{Checks: 3000, Shards: 1}, Budget{Checks: 100000, Shards: 16}, genUnrankCase, checkUnrank)
 	RegisterRapid("C16_rank",
 		"rapid: strictly increasing non-negative sequences of length 0..10 (small gaps, occasional jumps, 20% with a last element up to 2^40); Rank equals the big-int definition when it fits, must panic (not wrap) when it does not, and Unrank inverts it. Non-trivial: length >= 2.",
-		Budget{Checks: 6000, Shards: 1}, Budget{Checks: 60000, Shards: 4}, genRankCase, checkRank)
+		Budget{Checks: 6000, Shards: 1}, Budget{Checks: 300000, Shards: 8}, genRankCase, checkRank)
 	RegisterEnum("C16_colex_agreement",
 		"enumeration: every (n,k) with 0 <= k <= n <= 12 (thorough 14): the i-th value of CombinationsColex(n,k) has Rank i and equals Unrank(i,k) (order agreement and monotonicity). Non-trivial: C(n,k) >= 2.",
 		true, Budget{Shards: 1}, Budget{Shards: 1},
